@@ -28,21 +28,22 @@ import (
 const callHeader = "X-Sim-Call"
 
 type Exchange struct {
-	CallID     int
-	Seq        int // nth exchange of the call (twin executions, redirects)
-	ReqBytes   []byte
-	Delivered  bool
-	Handled    bool // handler returned (or panicked)
-	ParseErr   string
-	Status     int
-	RespHeader http.Header
-	RespBody   []byte
-	Panic      string // a panic that escaped ServeHTTP ("connection crashed")
-	Faults     []string
-	Method     string
-	Path       string // escaped path as the server saw it
-	RawQuery   string
-	wroteHdr   bool
+	CallID       int
+	Seq          int // nth exchange of the call (twin executions, redirects)
+	ReqBytes     []byte
+	Delivered    bool
+	Handled      bool // handler returned (or panicked)
+	ParseErr     string
+	Status       int
+	RespHeader   http.Header
+	RespBody     []byte
+	RespBodySent []byte // the response body as (possibly damaged) delivered to the client
+	Panic        string // a panic that escaped ServeHTTP ("connection crashed")
+	Faults       []string
+	Method       string
+	Path         string // escaped path as the server saw it
+	RawQuery     string
+	wroteHdr     bool
 }
 
 type slot struct {
@@ -253,6 +254,8 @@ func (n *Net) fault(call *Call, e *Exchange, on bool, kind string) bool {
 
 // RoundTrip runs on a caller task.
 func (n *Net) RoundTrip(req *http.Request) (*http.Response, error) {
+	// a transport reads the request (and its body) some time after the caller built it
+	kern.Yield("roundtrip")
 	call := n.getCur(kern.CurID())
 	e := &Exchange{CallID: -1}
 	if call != nil {
